@@ -271,17 +271,28 @@ Fixpoint zip9 (k : nat) (ms is_ : list pobs9) : list nat :=
   | _, _ => [9%nat]
   end.
 
+(* boolean form of the hypotheses of the totality theorem (Heur_facts.PathHyp) *)
+Definition path_hypb (st : pstate) : bool :=
+  match nodes (pg st) with
+  | [] => false
+  | d :: rest =>
+      (ndemand d =? 0) && ext_eqb (nhi d) PInf && (0 <=? pinit st) && (pinit st <=? pcap st) &&
+      forallb (fun nd => (- pcap st <=? ndemand nd) && (ndemand nd <=? pcap st) && ext_leb (Fin 0) (nhi nd)) rest
+  end.
+
 (* one case: graph history (base class), capacity, initial loading, candidate routes (add_route calls),
-   oracle (true = first key, false = last key), the high costs of the invocations, the observations.
-   Tags: k = invocation k differs, 9 = different number of invocations observed *)
-Definition pcase9 := (list gop * Z * Z * list (list elem) * bool * list Z * list pobs9)%type.
+   oracle (true = first key, false = last key), the high costs of the invocations, whether the harness
+   regards the instance as inside the hypotheses of the totality claim, the observations.
+   Tags: k = invocation k differs, 9 = different number of invocations observed, 8 = hypothesis flag *)
+Definition pcase9 := (list gop * Z * Z * list (list elem) * bool * list Z * bool * list pobs9)%type.
 
 Definition pstate_of (ops : list gop) (cap init : Z) (rs : list (list elem)) : pstate :=
   prun (map PAddRoute rs) (mkP (run Base ops empty_graph) cap init [] [] []).
 
 Definition check_pcase9 (c : pcase9) : list nat :=
   match c with
-  | (ops, cap, init, rs, first, highs, impl) =>
+  | (ops, cap, init, rs, first, highs, hyp, impl) =>
       let st := pstate_of ops cap init rs in
+      chk 8 (Bool.eqb hyp (path_hypb st)) ++
       zip9 O (map observe9 (mf_path_iter (if first then choose_first else choose_last) harness_dum st highs)) impl
   end.
